@@ -95,6 +95,13 @@ def build_extractor():
             return out
         rc, o, e = sh(["go", "build", "-o", out, "."], cwd=EXTRACT_SRC, env=dict(GOENV, GOFLAGS=""), timeout=300)
         if rc != 0:
+            if os.path.exists(out):
+                # several people edit tools/extract at once during development: fall back to the last
+                # binary that built (its tables may be stale; the final tree must build cleanly, which
+                # ./check --setup verifies)
+                log("WARNING: extractor build failed, using previous binary:\n" + (o + e)[-600:])
+                os.utime(out, None)
+                return out
             raise RuntimeError("extractor build failed:\n" + o + e)
         return out
 
